@@ -147,7 +147,7 @@ fn exec(line: &str) -> (String, Option<String>, bool) {
     let mut cur = store.clone();
     let fresh = |cur: &[u32]| -> Result<String, String> {
         let other = domutil::container("aside");
-        let (o2, v3, c3) = (other.clone(), vds.clone(), cur.to_vec());
+        let (o2, v3, c3) = (other.clone(), vds.iter().map(|v| after_hydration(v, &store)).collect::<Vec<VD>>(), cur.to_vec());
         let r = catch(|| create_root(move || {
             let sigs: Vec<Signal<u32>> = c3.iter().map(|v| create_signal(*v)).collect();
             let view = View::from(v3.iter().map(|v| build(v, &sigs)).collect::<Vec<View>>());
@@ -168,7 +168,9 @@ fn exec(line: &str) -> (String, Option<String>, bool) {
         }
         cur[*i] = *v;
         out.push(vis(&container, Some(&mut names)));
-        if verdict.is_none() {
+        // (a `NoHydrate` inside a region that is re-created later is mounted normally then: the frozen
+        // reference does not apply; the Lean model covers those cases)
+        if verdict.is_none() && !vds.iter().any(|v| nohydrate_in_dynamic(v, false)) {
             let have = vis(&container, None);
             match fresh(&cur) {
                 Ok(want) => if want != have { verdict = Some(format!("[hydrate-stale] after hydration and signal {i} := {v}: visible tree `{have}`, a client render of the current state shows `{want}`")); }
